@@ -558,6 +558,7 @@ DString * itmz_create(DString * body, mmd_engine * e, const char * directory) {
 	free(result->str);
 
 	status = mz_zip_writer_finalize_heap_archive(&zip, (void **) & (result->str), (size_t *) & (result->currentStringLength));
+	result->currentStringBufferSize = result->currentStringLength;
 
 	if (!status) {
 		fprintf(stderr, "Error finalizing zip archive.\n");
